@@ -220,6 +220,93 @@ def single_site_part(ck, seed):
     ck.extra["single_site_blocks"] = blocks
 
 
+PRG_BLOCK_STARTS = [   # bushy forests on 4-5 points: attachment points that already have two and more children
+    ({"f": [[0, 1, 2, 3], [1], [2], [3]], "o": []}, [3]),
+    ({"f": [[0, 1, 2, 3, 4], [1], [2], [3, 4], [4]], "o": []}, [3, 4]),
+    ({"f": [[0], [1], [2], [3]], "o": []}, [3]),
+    ({"f": [[0, 1, 2, 3, 4], [1, 2], [2], [3], [4]], "o": []}, [4]),
+]
+
+
+def prg_block_part(ck, seed):
+    """One prune-regraft of a GIVEN clone beyond the sizes of the exact kernels: TLC (MoveRel.tla) gives the set C of trees
+    obtained by regrafting clone v anywhere - the same set from each of its members; the real sampler is run from every
+    member with all random outcomes enumerated, the outcomes in which it pruned v are kept, and the block must be
+    invariant: sum_c pi(c) K_v(c, t) = pi(t) on C."""
+    import math
+    from ..enumrng import EnumRNG, enumerate_paths
+    from phyclone.tree import FSCRPDistribution, TreeJointDistribution
+    from phyclone.mcmc.gibbs_mh import PruneRegraphSampler
+
+    lines = []
+    for k, (st, v) in enumerate(PRG_BLOCK_STARTS):
+        lines.append("[id |-> %d, st |-> [f |-> {%s}, o |-> {}], v |-> {%s}]" % (k, ", ".join("{%s}" % ", ".join(map(str, c)) for c in st["f"]), ", ".join(map(str, v))))
+    mc = ("---- MODULE MC_PrgBlock ----\nEXTENDS MoveRel, Json\nStarts == {%s}\n"
+          "ASSUME \\A r \\in Starts : PrintT(ToJson([id |-> r.id, cands |-> PRGResults(r.st, r.v)]))\n"
+          "VARIABLE x\nInit == x = 0\nNext == UNCHANGED x\n====\n") % ", ".join(lines)
+    r = tlc.run_tlc("c04_prg_block", "MC_PrgBlock", tlc.cfg_text(constants={"OutlierOn": "FALSE", "SkipLoneOutlier": "FALSE"}), mc_text=mc, workers=1, timeout=900)
+    tlc.require_ok(r, "MoveRel regraft candidates")
+    ck.add_tlc("MoveRel.tla regraft candidates of one clone from %d bushy forests on 4-5 points" % len(PRG_BLOCK_STARTS), r)
+    n = 5
+    data = absstate.make_data(n, dims=2, grid=5, seed=seed + 13, kind="int")
+    dist = TreeJointDistribution(FSCRPDistribution(1.4))
+    for rec in r.json_prints:
+        v = frozenset(PRG_BLOCK_STARTS[rec["id"]][1])
+        cands = [absstate.canon(c) for c in rec["cands"]]
+        cset = set(cands)
+        sub = [dp for dp in data if dp.idx in absstate.data_ids(cands[0])]
+        logpi = {c: float(dist.log_p_one(absstate.build(c, sub))) for c in cands}
+        m = max(logpi.values())
+        tot = sum(math.exp(x - m) for x in logpi.values())
+        pi = {c: math.exp(x - m) / tot for c, x in logpi.items()}
+        flow = {c: 0.0 for c in cands}
+        bad = None
+        for c in cands:
+            rng = EnumRNG()
+            sampler = PruneRegraphSampler(dist, rng)
+            holder = {}
+
+            def go():
+                t = absstate.build(c, sub)
+                holder["nodes"] = list(t.nodes)
+                holder["clade"] = absstate.project(t, full=False)[1]["clade"]
+                return sampler.sample_tree(t)
+
+            mass_v = 0.0
+            for out, p, _ in enumerate_paths(go, rng):
+                tr = rng.trace
+                if not tr or tr[0][0] != "choice":
+                    continue
+                if holder["clade"][holder["nodes"][tr[0][1]]] != v:
+                    continue
+                k2 = absstate.quick_key(out)
+                if k2 not in cset:
+                    bad = "pruning clone %s of %s returned %s, not a regraft of that clone" % (sorted(v), absstate.key_str(c), absstate.key_str(k2))
+                    break
+                flow[k2] += pi[c] * p
+                mass_v += p
+            if bad:
+                break
+            # (flows are accumulated with the unconditional probabilities and divided by P(clone v is pruned) below)
+            flow["_mass_%s" % absstate.key_str(c)] = mass_v
+        ck.evaluations += len(cands)
+        ck.nontrivial("prg_block|%d" % rec["id"])
+        rep = {"start": PRG_BLOCK_STARTS[rec["id"]][0], "pruned": sorted(v), "candidates": [absstate.to_json(c) for c in cands]}
+        if bad:
+            ck.violation("C04|prg_block|support", bad, rep)
+            continue
+        masses = [flow.pop("_mass_%s" % absstate.key_str(c)) for c in cands]
+        if max(masses) - min(masses) > 1e-12 or min(masses) <= 0:
+            ck.model_drift("the probability of pruning clone %s differs between the members of its regraft class (%s)" % (sorted(v), [round(x, 6) for x in masses]))
+            continue
+        res = max(abs(flow[c] / masses[0] - pi[c]) for c in cands)
+        if res > 1e-10:
+            worst = max(cands, key=lambda c: abs(flow[c] / masses[0] - pi[c]))
+            ck.violation("C04|prg_block|nonstationary", "regrafting clone %s among the %d attachment points of %s does not preserve the posterior on that block: max |pi K - pi| = %.3g (at %s: %.6g vs %.6g)" % (
+                sorted(v), len(cands), absstate.key_str(absstate.canon(PRG_BLOCK_STARTS[rec["id"]][0])), res, absstate.key_str(worst), flow[worst] / masses[0], pi[worst]), rep)
+    ck.traces_validated += len(r.json_prints)
+
+
 def certain_attachment_part(ck, seed, thorough):
     """A tree far beyond the enumerable sizes (a chain of 40 clones, all at CCF 1) whose data make every clone's current
     attachment conditionally certain (any other attachment puts two full-size children under one clone or two
@@ -309,9 +396,13 @@ def run(corrupt=None):
                     cfgs.append(dict(base, n=n, wiring=w, outl=outl))
         cfgs.append(dict(base, n=3, wiring="run", outl=True, dist="real", alpha=0.3))
         cfgs.append(dict(base, n=3, wiring="lib", outl=False, dist="real", alpha=2.5))
+        if which == "dp":
+            # the outlier option on while one data point carries no outlier prior (library use; its terms are then absent)
+            cfgs.append(dict(base, n=3, wiring="lib", outl=True, dist="real", alpha=1.1, zero_prior=True))
         c01.run_configs(ck, cfgs, table, which=which, prop="C04", corrupt=corrupt, sigfn=sigfn_for(which))
     mechanism_rows(ck, seed, table)
     single_site_part(ck, seed)
+    prg_block_part(ck, seed)
     certain_attachment_part(ck, seed, thorough)
     trace_moves_part(ck, seed, thorough)
     # sweep composition on one tree object (data-point scan, prune-regraft, relabel, prune-regraft), real density
